@@ -615,6 +615,12 @@ func checkStep(env *Env, id string, top string, allow bool, st *oracleState, q *
 			st.roPath = c
 		}
 	case opReadFile, opReadFileCritical:
+		if q.Op == opReadFile && !(so.closed && len(out) == 0) {
+			// framing: a 4-byte count followed by exactly that many bytes, or the connection ends without a byte
+			if len(out) < 4 || int(int32(binary.BigEndian.Uint32(out[:4]))) != len(out)-4 || so.closed {
+				fail("C03-shape", "READ_FILE answer of %d bytes (closed=%v) is not a count followed by that many bytes", len(out), so.closed)
+			}
+		}
 		if st.roPath == "" {
 			if len(out) != 0 || !so.closed {
 				fail("C03-noread", "no open file: expected the connection to end without bytes, got %d bytes closed=%v", len(out), so.closed)
